@@ -66,6 +66,10 @@ impl SlabLayout {
                 .expect("slot layout size is non-zero because object layout size is non-zero"),
         );
 
+        // Verification hook: slabs of a harness-chosen (tiny) capacity, see `crate::verif`.
+        #[cfg(folo_verif)]
+        let capacity = crate::verif::slab_capacity_override().unwrap_or(capacity);
+
         let total_size = slot_layout
             .size()
             .checked_mul(capacity.get())
